@@ -17,6 +17,10 @@ FINDINGS = os.path.join(VERIF, "findings", "known_findings.json")
 BIN = os.path.join(HARNESS, "target", "debug", "opwv")
 
 
+class Hang(Exception):
+    """The harness gave up (exit code 97): a call of the code under test did not return within the stall limit."""
+
+
 class ToolError(Exception):
     """Something in the machinery (not the code under test) failed: exit code 2."""
 
@@ -110,6 +114,9 @@ def opwv(ctx, args, stdin_path=None, out_path=None, timeout=3600, env_extra=None
             fin.close()
         if out_path:
             fout.close()
+    if r.returncode == 97:
+        log(r.stderr[-1000:])
+        raise Hang(" ".join(map(str, args[:2])))
     if r.returncode != 0:
         log(r.stderr[-4000:])
         raise ToolError("harness failed (%d): %s" % (r.returncode, " ".join(map(str, args))))
